@@ -5,6 +5,8 @@
 //!   MaybeUninit value / slice (deprecated writers), dyn Trait. Verdict must be `c == 1`.
 //! ASSUME: alloc/dealloc logging stubs; count preset through the cfg(triomphe_verif) hook. By C04
 //!   the count equals the number of owning handles of all kinds, so `c == 1` is "no other owner".
+//! BOUNDS: (real_coowner_*) a two-owner history built with each other kind's own from/clone/drop (OffsetArc,
+//!   ArcUnion either arm, raw pointer, arc-swap pointer, ThinArc): every gate declines, then grants once it is gone.
 //! OUTSIDE: the ordering half of C03 (weak-memory engine); unwinding.
 use crate::ghost::*;
 use crate::kinds::*;
@@ -230,4 +232,47 @@ h!(q_gates_zst, {
     kani::cover!(c == 1);
     kani::cover!(c == 2);
     forget(h);
+});
+
+
+// ---- the other owner is a REAL handle of another kind, made and cloned through that kind's own operations
+//      (no preset count): while it exists every gate must decline; once it is gone every gate must grant
+fn gates_with_real_coowner<K: Kind<P = Dt>>() {
+    let v: u8 = kani::any();
+    let mut a = Arc::new(Dt::new(0, v));
+    let h = K::from_arc(a.clone());
+    let h2 = h.dup();
+    h.release();
+    // owners: a, h2
+    assert!(!a.is_unique(), "is_unique although a handle of another kind still owns the value");
+    assert!(Arc::get_mut(&mut a).is_none(), "get_mut granted although a handle of another kind still owns the value");
+    assert!(Arc::get_unique(&mut a).is_none());
+    let mut a = match Arc::try_unique(a) {
+        Ok(_) => panic!("try_unique granted although a handle of another kind still owns the value"),
+        Err(a) => a,
+    };
+    assert!(h2.data_addr() == Arc::as_ptr(&a) as usize && ledger_zero());
+    h2.release();
+    assert!(ledger_zero(), "the value died with a co-owner although the Arc is still there");
+    assert!(a.is_unique() && Arc::get_mut(&mut a).is_some(), "a sole owner was declined");
+    drop(a);
+    assert!(ledger_is(0, 1) && n_live() == 0);
+}
+h!(q_real_coowner_offset, gates_with_real_coowner::<OffsetArc<Dt>>());
+h!(q_real_coowner_union2, gates_with_real_coowner::<U2<Dt>>());
+h!(r0_real_coowner_union1, gates_with_real_coowner::<U1<Dt>>());
+h!(r1_real_coowner_raw, gates_with_real_coowner::<Raw<Dt>>());
+h!(r2_real_coowner_swap, gates_with_real_coowner::<Swp<Dt>>());
+h!(q_real_coowner_thin, {
+    let v: u8 = kani::any();
+    let mut a = Arc::from_header_and_iter(HeaderWithLength::new(Dt::new(0, v), 1), (0..1).map(|_| Dt::new(1, v)));
+    let t = Arc::into_thin(a.clone());
+    let t2 = t.clone();
+    drop(t);
+    assert!(!a.is_unique() && Arc::get_mut(&mut a).is_none(), "gate granted although a ThinArc still owns the value");
+    drop(t2);
+    assert!(ledger_zero());
+    assert!(a.is_unique() && Arc::get_mut(&mut a).is_some(), "a sole owner was declined");
+    drop(a);
+    assert!(ledger_is(0, 2) && n_live() == 0);
 });
